@@ -17,11 +17,13 @@ func C02(c *core.Ctx) {
 		"C02 decides necessary conditions only. A-TAG: over the type, required, array, default and additionalProperties families under three tag lists (default, json only, json+mapstructure) every configured " +
 		"tag of every field carries the raw property-name atom untransformed, omitempty exactly for optional properties. A-MAP: the Go type chosen for each (schema type, format, nullability, position) is the " +
 		"oracle's, so decoding neither truncates nor coerces. A-NOEXTRA: over the broad union of families no emitted unmarshaler contains a reject branch that is not attributable to a keyword stated in the " +
-		"abstract schema, and no presence test for an optional or defaulted property (valid documents are not over-rejected by construction). B-SIZED: with --min-sized-ints the chosen integer type holds every " +
+		"abstract schema, and no presence test for an optional or defaulted property (valid documents are not over-rejected by construction). A-OVERREJ: a branch that IS attributable to a keyword rejects no more than the keyword does — " +
+		"the operator is not weaker-than-strict where the schema is strict and not the other direction, and a limit that was rounded before printing pairs with the operator that makes it exact for fractional limits " +
+		"(value < ceil(b) = value <= floor(b) is the reject set of both value < b and value <= b). B-SIZED: with --min-sized-ints the chosen integer type holds every " +
 		"admitted value in every cell of the width table (region-domain interpretation, shared with C15). B-LAYOUT: in pkg/types each MarshalJSON prints with the layout constant its sibling UnmarshalJSON parses " +
 		"with, on every return path. B-ADDPROPS: both emitters delete the declared keys from the raw map before collecting the remainder. " +
 		"Not decided: value equality after a round trip, numeric precision, RFC 3339 conformance of the layouts, encoding/json's case-insensitive key matching — runtime quantities."
-	rules := ruleSet("A-TAG", "A-MAP", "A-NOEXTRA")
+	rules := ruleSet("A-TAG", "A-MAP", "A-NOEXTRA", "A-OVERREJ")
 	d := gen.DefaultConfig()
 	j := d
 	j.Tags = []string{"json"}
@@ -38,10 +40,10 @@ func C02(c *core.Ctx) {
 			if ci > 0 && c.Tier != "thorough" && i%2 == 1 {
 				continue
 			}
-			runMember(c, mb, rules, 64, func(w *fam.World, fm *fam.FileModel) []fam.Issue {
+			runMember(c, mb, rules, 256, func(w *fam.World, fm *fam.FileModel) []fam.Issue {
 				var keep []fam.Issue
 				for _, is := range checkRoot(w, fm) {
-					if is.Rule == "A-NOEXTRA" || is.Rule == "A-TAG" || is.Rule == "A-MAP" {
+					if is.Rule == "A-NOEXTRA" || is.Rule == "A-TAG" || is.Rule == "A-MAP" || is.Rule == "A-OVERREJ" {
 						// nested-array limits (C07) surface here as extra branches as well: they are listed under C07
 						if is.Rule == "A-NOEXTRA" && strings.Contains(is.Msg, "Items") {
 							continue
